@@ -263,8 +263,24 @@ def corr(ctx):
 # ---------------------------------------------------------------------------------------------
 # oracle: the paired calculators on real runs
 
-def tb_model(rs, kind):
-    """low-symmetry two-band tight-binding models from the repository's own model zoo + random perturbation"""
+def tb_model(rs, kind, mingap=2.0):
+    """low-symmetry two-band tight-binding models from the repository's own model zoo + random perturbation;
+       models whose direct gap on an 8^3 grid is below `mingap` are redrawn (a small gap makes the Berry curvature
+       sharp on the scale of the integration grid: the property is about CONVERGED grids)"""
+    from wannierberri.grid import Grid
+    from wannierberri.data_K import Data_K_R
+    for attempt in range(20):
+        s, par = _tb_model(rs, kind)
+        with quiet():
+            E = Data_K_R(s, grid=Grid(s, NK=8, NKFFT=8), dK=np.zeros(3)).E_K
+        gap = float((E[:, 1] - E[:, 0]).min())
+        if gap >= mingap:
+            break
+    par.update(min_gap_8x8x8=gap, redraws=attempt)
+    return s, par
+
+
+def _tb_model(rs, kind):
     wb = _c08._wb()
     from wannierberri import models
     from wannierberri.system import System_R
@@ -277,7 +293,7 @@ def tb_model(rs, kind):
                        hopz_right=float(rs.uniform(-0.1, 0.1)), hopz_vert=float(rs.uniform(-0.1, 0.1)))
             s = System_R.from_pythtb(models.Chiral(**par))
         else:
-            par = dict(delta=float(rs.uniform(0.5, 1.2)), hop1=-1.0, hop2=float(rs.uniform(0.1, 0.25)),
+            par = dict(delta=float(rs.uniform(1.8, 2.6)), hop1=-1.0, hop2=float(rs.uniform(0.1, 0.25)),
                        phi=float(rs.uniform(0.6, 1.6)))
             s = System_R.from_pythtb(models.Haldane_ptb(**par))
     seed = int(rs.randint(0, 2 ** 31 - 1))
@@ -300,10 +316,10 @@ def tb_model(rs, kind):
 def kp_model(rs):
     """two-band k.p model with a closed Fermi surface well inside the box (so that nothing crosses the box boundary)"""
     wb = _c08._wb()
-    A = float(rs.uniform(7.0, 9.0))
+    A = float(rs.uniform(9.0, 11.0))
     lam = rs.uniform(0.6, 1.2, 3) * rs.choice([-1, 1], 3)
     tilt = rs.uniform(-0.5, 0.5, 3)
-    wv = rs.uniform(-1.5, 1.5, (3, 3))        # quadratic coupling to sigma: breaks the remaining symmetries
+    wv = rs.uniform(-0.9, 0.9, (3, 3))        # quadratic coupling to sigma: breaks the remaining symmetries
     sig = np.array([[[0, 1], [1, 0]], [[0, -1j], [1j, 0]], [[1, 0], [0, -1]]], dtype=complex)
     eye = np.eye(2, dtype=complex)
 
@@ -338,7 +354,12 @@ def kp_model(rs):
 
     with quiet():
         s = wb.system.SystemKP(Ham=ham, derHam=dham, der2Ham=d2ham, der3Ham=d3ham, kmax=1.0)
-    return s, dict(kind="kp", A=A, lam=lam.tolist(), tilt=tilt.tolist(), w=wv.tolist(), mass=mass.tolist())
+    # lowest band energy on the faces of the box: Fermi levels must stay well below it (no occupied state may touch
+    # the boundary of the box, otherwise the integration by parts has boundary terms)
+    g = np.linspace(-1, 1, 9)
+    eb = min(np.linalg.eigvalsh(ham(np.roll(np.array([sg, x, y]), ax)))[0]
+             for ax in range(3) for sg in (-1.0, 1.0) for x in g for y in g)
+    return s, dict(E_boundary_min=float(eb), kind="kp", A=A, lam=lam.tolist(), tilt=tilt.tolist(), w=wv.tolist(), mass=mass.tolist())
 
 
 def run_pairs(ctx, s, par, names, ef, kT, NK, NKFFT):
@@ -395,26 +416,34 @@ def oracle(ctx, scale):
     if not thorough:
         pairs = [p for p in pairs if not p[0].startswith("Hall_classic")]      # rank-4 formula: thorough tier only
     devs = []
-    plan = [("chiral", ctx.n(12, 16), 6.0)]
+    # (model kind, NK).  Tolerances are convergence tolerances.  The code smooths T = 0 data that were binned on the E_F
+    # grid, so the effective occupation is a staircase of step dE: with dE = kT/6 the k-sum of the parity-odd,
+    # cancellation-prone nonlinear Drude tensor is 9-17 % off at 12^3, with dE = kT/24 it is 2 % (rank-2 pairs <= 2 %).
+    # Hence dE = kT/24 here.  A wrong sign gives 2.0, a wrong axis order O(1).
+    plan = [("chiral", ctx.n(12, 16), 0), ("kp", ctx.n(12, 16), 0)]
     if thorough:
-        plan += [("haldane", 16, 6.0), ("chiral", 24 if scale == 1 else 16, 5.0), ("kp", 20, 0)]
-    else:
-        plan += [("kp", 16, 0)]
+        plan += [("haldane", 16, 0), ("chiral", 24 if scale == 1 else 16, 0), ("kp", 20, 0)]
+
+    def tol_for(pair, NK):
+        if "Fermider2" in pair[1]:        # f'' needs a finer k-grid than f and f' (oracle-only extra pair)
+            return 0.15 if NK < 20 else 0.10
+        if "NLDrude" in pair[0]:
+            return 0.08 if NK < 20 else 0.05
+        return 0.04 if NK < 20 else 0.03
+
     for kind, NK, ktfac in plan:
         if kind == "kp":
             s, par = kp_model(rs)
-            ef = np.linspace(-2.5, 5.5, 81)
-            kT = 0.45
-            names_pairs = [p for p in pairs if table[p[0]]["formula"] not in ("DerSpin",)
-                           and not p[0].startswith("GME_spin")]
-            tol = 0.03
+            ef = np.arange(-3.5, 7.0, 0.025)
+            kT = 0.6 if NK < 16 else 0.45
+            # the nonlinear Drude tensor of this model (der3Ham = 0) is a small remainder of large cancelling terms: it is
+            # compared on the tight-binding models only
+            names_pairs = [p for p in pairs if not p[0].startswith(("GME_spin", "Hall_classic", "NLDrude"))]
         else:
             s, par = tb_model(rs, kind)
-            lo, hi = (-10.0, 11.0) if kind == "chiral" else (-9.0, 9.0)
-            ef = np.linspace(lo, hi, 106 if kind == "chiral" else 91)
-            kT = ktfac * (ef[1] - ef[0])
+            ef = np.arange(-12.0, 13.0, 0.05) if kind == "chiral" else np.arange(-10.0, 10.0, 0.05)
+            kT = 1.2 if kind == "chiral" else 1.0
             names_pairs = list(pairs)
-            tol = 0.03
         allp = names_pairs + (extra if kind != "kp" else [])
         names = sorted({n for p in allp for n in p})
         case = dict(model=par, NK=NK, kT=kT, kT_over_dE=kT / (ef[1] - ef[0]), Efermi=[float(ef[0]), float(ef[-1]), len(ef)])
@@ -424,19 +453,26 @@ def oracle(ctx, scale):
             ctx.fail(f"run() of the paired calculators raised {type(e).__name__}: {str(e)[:300]}", case)
             continue
         if kind == "kp":
-            # only Fermi levels for which the occupied region stays inside the box
-            keep = efsel < 3.0
+            # only Fermi levels for which the occupied region stays inside the box: f(E_boundary) < exp(-8)
+            keep = efsel < par["E_boundary_min"] - 8 * kT
             data = {n: v[keep] for n, v in data.items()}
         for a, b in allp:
-            devs.append((a, compare(ctx, data[a], data[b], a, b, case, tol)))
+            devs.append((a, NK, compare(ctx, data[a], data[b], a, b, case, tol_for((a, b), NK))))
     if devs:
-        worst = max(devs, key=lambda x: x[1])
-        ctx.note(f"largest sea/surface discrepancy on the unchanged code: {worst[1]:.4f} ({worst[0]}); tolerance 0.03; a sign "
-                 f"or axis error gives 2.0 resp. O(1)")
+        r2 = [d for d in devs if "NLDrude" not in d[0]]
+        r3 = [d for d in devs if "NLDrude" in d[0]]
+        for lab, dd in (("rank-2 pairs", r2), ("nonlinear Drude", r3)):
+            if dd:
+                w = max(dd, key=lambda x: x[2])
+                ctx.note(f"largest sea/surface discrepancy, {lab}: {w[2]:.4f} ({w[0]}, {w[1]}^3); a sign error gives 2.0, "
+                         f"an axis error O(1)")
     ctx.sample(dict(pairs=pairs + extra, plan=plan))
 
 
 def replay(ctx, case):
+    """re-run the check with the recorded seed and tier: the models (parameters are also listed in the recorded case)
+       are functions of the seed"""
+    _c08.reseed(ctx, case)
     tables(ctx)
     corr(ctx)
     oracle(ctx, 1)
